@@ -42,8 +42,12 @@ def gen_case(seed, tier):
     wl = stream(seed, "workload")
     fl = stream(seed, "faults")
     sc = stream(seed, "sched")
-    kind = cfg.choice(["unsigned", "unsigned", "signed", "array", "struct"])
-    if kind in ("unsigned", "signed"):
+    kind = cfg.choice(["unsigned", "unsigned", "signed", "array", "struct", "enum"])
+    if kind == "enum":
+        # rows shaped by an enumeration over a signed shape with negative members (any bit pattern may be stored)
+        width = cfg.choice([2, 3, 4])
+        shape = {"kind": "enum", "width": width}
+    elif kind in ("unsigned", "signed"):
         width = cfg.choice([0, 1, 2, 3, 4, 6, 8, 12]) if kind == "unsigned" else cfg.choice([1, 2, 3, 4, 8])
         shape = {"kind": kind, "width": width}
     elif kind == "array":
@@ -58,6 +62,9 @@ def gen_case(seed, tier):
     depth = cfg.choice(DEPTHS)
     ninit = cfg.randint(0, depth)
     init = [cfg.randrange(1 << width) for _ in range(ninit)]
+    if kind == "enum":
+        members = [(1 << (width - 1)), (1 << width) - 1, 0, 1]       # bit patterns of NEG, MINUS_ONE, ZERO, ONE
+        init = [cfg.choice(members) for _ in range(ninit)]
     ndom = cfg.choice([1, 1, 2])
     doms = [{"name": n, "edge": cfg.choice(["pos", "neg"]), "async": cfg.random() < 0.3} for n in ("a", "b")[:ndom]]
     wports = []
@@ -167,7 +174,7 @@ def gen_case(seed, tier):
 
 
 def shape_width(shape):
-    if shape["kind"] in ("unsigned", "signed"):
+    if shape["kind"] in ("unsigned", "signed", "enum"):
         return shape["width"]
     if shape["kind"] == "array":
         return shape["elem"] * shape["len"]
@@ -190,6 +197,16 @@ def build(config):
     elif sh["kind"] == "signed":
         shape = signed(width)
         conv = lambda raw: to_signed(raw, width)
+    elif sh["kind"] == "enum":
+        from amaranth.lib import enum as aenum
+
+        class E(aenum.Enum, shape=signed(width)):
+            NEG = -(1 << (width - 1))
+            MINUS_ONE = -1
+            ZERO = 0
+            ONE = 1
+        shape = E
+        conv = lambda raw: E(to_signed(raw, width))
     elif sh["kind"] == "array":
         shape = data.ArrayLayout(unsigned(sh["elem"]), sh["len"])
         conv = lambda raw: [(raw >> (i * sh["elem"])) & ((1 << sh["elem"]) - 1) for i in range(sh["len"])]
@@ -288,7 +305,7 @@ def run_case(case):
                 return
             await ctx.posedge(crash_sig)
             ctx.set(Value.cast(mem.data[crash["a"] % depth]), 0)
-            ctx.set(Value.cast(mem.data[crash["a"] % depth]), crash["v"] & full if config["shape"]["kind"] != "signed" else 0)
+            ctx.set(Value.cast(mem.data[crash["a"] % depth]), crash["v"] & full if config["shape"]["kind"] not in ("signed", "enum") else 0)
             raise CrashInjected()
         procs = [crasher]
     run = ManualRun(dut, domains, sched_mode=case["sched"]["mode"], sched_seed=case["sched"]["seed"], extra_lines=extra_lines,
@@ -370,7 +387,7 @@ def run_case(case):
                 if st["a"] < depth:
                     v = st["v"] & full
                     row = Value.cast(mem.data[st["a"]])
-                    sv = v - (1 << width) if (config["shape"]["kind"] == "signed" and width and v >> (width - 1)) else v
+                    sv = v - (1 << width) if (config["shape"]["kind"] in ("signed", "enum") and width and v >> (width - 1)) else v
                     drv.set(row, sv)
                     rows[st["a"]] = [v, full]
                     P["row_wr"] += 1
